@@ -80,6 +80,8 @@ def _lists(targets, kinds):
         p["confidence_threshold_list"] = [real(f"conf_thr_{i}", 0, 1, hi_strict=True) for i in range(n)]
     if "uuid" in kinds:
         p["target_uuids"] = ["u1"]
+    if "uuid0" in kinds:
+        p["target_uuids"] = []  # an empty list of critical uuids: no ground truth qualifies
     if "attr" in kinds:
         p["ignore_attributes"] = ["parked", "cycle"]
     return p
@@ -312,7 +314,7 @@ def obligations(pid, tier):
     if not quick:
         frames += [("base_link_with_transforms", "yaw90"), ("map", "yaw90"), ("map", "id")]
     kindsets = [(), ("xy",), ("dist",), ("conf",), ("points", "uuid"), ("attr",), ("xy", "conf", "points"),
-                ("dist", "conf", "uuid", "attr")]
+                ("dist", "conf", "uuid", "attr"), ("uuid0",)]
     pred = [dict(frame=f, ego_q=q, targets=t, kinds=k) for f, q in frames for t in TARGETSETS for k in kindsets
             if not (quick and t == "car" and len(k) > 1)]
     lists = [dict(frame=f, ego_q=q, n=n, kinds=k) for f, q in frames[:2] for n in ([2] if quick else [2, 3])
@@ -320,7 +322,7 @@ def obligations(pid, tier):
              if not (quick and f == "map" and k == ("dist",))  # map-frame ring bounds: predicate + thorough tier
              and not (n == 3 and (f != "base_link" or k not in (("xy",), ("conf",), ("dist",))))]  # three objects: run time
     resf = [dict(frame=f, ego_q=q, kinds=k, has_gt=h) for f, q in frames[:2]
-            for k in [("xy",), ("dist", "conf"), ("points", "uuid"), ("attr", "conf")] for h in (True, False)]
+            for k in [("xy",), ("dist", "conf"), ("points", "uuid"), ("attr", "conf"), ("uuid0",)] for h in (True, False)]
     return [
         Obligation("predicate", predicate, cases=pred, desc="filter_objects on one object equals the specification predicate"),
         Obligation("list_laws", list_laws, cases=lists,
